@@ -172,3 +172,15 @@ def bind_args(fi: FunctionInfo, call: ast.Call, skip_self: bool = False) -> Dict
         if k.arg is not None:
             out[k.arg] = k.value
     return out
+
+
+def deref(fn: ast.AST, node: Optional[ast.AST], depth: int = 3) -> Optional[ast.AST]:
+    """Follow a plain local name to the expression it was assigned (single assignment only)."""
+    while node is not None and isinstance(node, ast.Name) and depth > 0:
+        defs = assignments_to(fn, node.id)
+        if len(defs) != 1 or not isinstance(defs[0], ast.Assign) or len(defs[0].targets) != 1 \
+                or not isinstance(defs[0].targets[0], ast.Name):
+            return node
+        node = defs[0].value
+        depth -= 1
+    return node
